@@ -105,6 +105,7 @@ def run(ctx):
     J, runs, cov = common.sem_check(ctx, P, variants, level="translation_validation", post=post, write=False,
                                     sig_extra=sig_extra)
     cov["corpus"] = run_corpus(ctx)
+    cov["negated_queries"] = negated_queries(ctx)
     # DIMACS
     # the ground task's --keep-duplicates: a clause derived twice keeps both copies in the formula and in the CNF
     jobs = [("ground_export", {"text": progs.render(p), "fmt": "cnf"}) for p in P] + \
@@ -132,5 +133,66 @@ def run(ctx):
         "for the ORIGINAL program, so an error common to export and re-import cannot cancel out"])
 
 
+def negated_queries(ctx):
+    """query(\\+q) next to query(q), also on atoms the grounder decides (deterministically true / false atoms): the exported text must
+    give every query - positive and negated - the probability the original program gives it (the relation the property states;
+    the original's own numbers are judged by C01)."""
+    import random
+    rng = random.Random(ctx.seed + 2626)
+    P = common.family_small(ctx.pick(120, 1200), ctx.seed + 25200, with_ad=False)
+    jobs, meta = [], []
+    for p in P:
+        q = dict(p)
+        q["evidence"] = []
+        t = progs.render(q)
+        names = sorted({r["head"]["f"] for r in p["rules"]} | {f["atom"]["f"] for f in p["facts"]})
+        extra = ["dt.", "dr(1).", "df :- dt, dr(%d)." % rng.randint(2, 3), "du :- \\+dt.", "dv :- \\+df."]
+        lines = extra + ["query(\\+%s)." % n for n in names] + ["query(%s)." % n for n in ("dt", "df", "du")] + \
+                ["query(\\+%s)." % n for n in ("dt", "df", "du")]
+        text = t + "\n".join(lines) + "\n"
+        for vn, kw in (("default", {"text": text}), ("export", {"_task": "ground_export", "text": text}),
+                       ("export-dag", {"_task": "ground_export", "text": text, "break_cycles": True})):
+            kw2 = dict(kw)
+            jobs.append((kw2.pop("_task", "prob"), kw2))
+            meta.append((len(meta) // 3, vn, text))
+    runs = pl.run_jobs(jobs, nproc=ctx.nproc, timeout=60)
+    n = 0
+    for i in range(0, len(runs), 3):
+        base, text = runs[i], meta[i][2]
+        if base.get("error") or base.get("inconclusive"):
+            continue
+        for k in (1, 2):
+            r, vn = runs[i + k], meta[i + k][1]
+            ctx.evaluations += 1
+            if r.get("inconclusive"):
+                continue
+            n += 1
+            fs = {"has_negation": "\\+" in text.split("dt.")[0], "has_evidence": False, "ad_nonground": False}
+            sig = dict(fs, clause="export-changes-answer", variant=vn, negated_query=True)
+            case = {"kind": "negq", "text": text, "variant": vn}
+            if r.get("error"):
+                ctx.violation(dict(sig, error=r["error"], site=r.get("site", "")), "[%s] the exported text raises %s (%s)\n%s" % (vn, r["error"], r.get("msg"), text), case)
+                continue
+            for name, v in base["answers"].items():
+                w = r["answers"].get(name)
+                if w is None or abs(w - v) > 1e-9:
+                    ctx.violation(sig, "[%s] %s: original %r, exported text %r\n%s\nexported:\n%s" % (vn, name, v, w, text, r.get("exported", "")[:1500]), case)
+                    break
+    return {"programs": len(P), "exports_compared": n}
+
+
 def replay(ctx, path):
+    import json as _json
+    with open(path) as f:
+        d = _json.load(f)
+    c = d["case"]
+    if c.get("kind") == "negq":
+        base = pl.run_local("prob", text=c["text"])
+        r = pl.run_local("ground_export", text=c["text"], break_cycles=(c["variant"] == "export-dag"))
+        print(c["text"], "\noriginal:", base, "\nexport:", r)
+        ctx.evaluations = 1
+        if r.get("error") or any(r["answers"].get(k) is None or abs(r["answers"][k] - v) > 1e-9 for k, v in base.get("answers", {}).items()):
+            ctx.violation({"clause": "export-changes-answer", "variant": c["variant"], "negated_query": True}, "export differs", c)
+        ctx.write_evidence("translation_validation", {"evaluations": 1, "distinct_nontrivial": 0, "samples": [c["text"]]})
+        return
     common.sem_replay(ctx, path)
